@@ -23,6 +23,12 @@ def xf_pre(name, opt, ns):
 
 def apply_xf(name, t, opt, a=()):
     d = opt.get("depth", 0)
+    if name == "splitUniform" and opt.get("via"):
+        # the rank is named by its id instead of (or, for "both", in addition to a *different*) depth: the rank id decides
+        kw = dict(rankid=t.getRankIds()[d])
+        if opt["via"] == "both":
+            kw["depth"] = 0 if d != 0 else 1
+        return t.splitUniform(opt["step"], relativeCoords=opt.get("rel", False), **kw)
     if name == "splitUniform":
         return t.splitUniform(opt["step"], depth=d, relativeCoords=opt.get("rel", False), pre_halo=opt.get("pre", 0), post_halo=opt.get("post", 0))
     if name == "splitNonUniform":
